@@ -223,6 +223,20 @@ def check_directional(ctx, c):
             if len(dirs) == 1:
                 want_v2, want_c2 = want_v2[0], want_c2[0]
             want_v, want_c = want_v2, want_c2
+        # known mechanism: coincident points (distance 0) belong to every direction, but for direction sets judged separated the
+        # kernel stops at the first matching direction, so such pairs are counted for the first direction only
+        nd_used = (dirs * scale) / np.linalg.norm(dirs * scale, axis=1)[:, None]
+        if len(dirs) > 1:
+            alt_v, alt_c = ov.unstructured(f.tolist(), edges.tolist(), pos.tolist(), kind=kind, directions=nd_used.tolist(), tol=tol, bandwidth=bw, separate=True)
+            sep_math = all(math.acos(min(abs(float(np.dot(nd_used[a], nd_used[b]))), 1.0)) >= 2 * tol for a in range(len(dirs)) for b in range(a + 1, len(dirs)))
+            has_dup = edges[0] <= 0.0 and any(ov.dist_euclid(pos.tolist(), a, b) == 0.0 for a in range(n) for b in range(a + 1, n))
+            if sep_math and has_dup and np.array_equal(np.asarray(gc), np.asarray(alt_c)) and not np.array_equal(np.asarray(gc), np.asarray(want_c)):
+                diff_bins = np.flatnonzero(np.any(np.asarray(gc) != np.asarray(want_c), axis=0))
+                if list(diff_bins) == [0]:
+                    ctx.fail(dict(mech, entry="vario_estimate", what="zero-distance-pairs-only-in-first-direction",
+                                  mechanism="directional/separate-dirs/zero-distance-pairs-first-direction-only"),
+                             f"counts {np.asarray(gc).tolist()} expected {np.asarray(want_c).tolist()} (coincident points, separated directions)")
+                    return
         _compare(ctx, "vario_estimate(direction)", gv, gc, want_v, want_c, dict(mech, entry="vario_estimate"), exact=True)
 
 
